@@ -171,3 +171,26 @@ func ReachableBlocks(b *ssa.BasicBlock) map[*ssa.BasicBlock]bool {
 	walk(b)
 	return seen
 }
+
+// ReachableBlocksAvoiding reports whether target is reachable from `from`
+// without passing through block avoid (loops back through avoid re-test).
+func ReachableBlocksAvoiding(from, target, avoid *ssa.BasicBlock) bool {
+	seen := map[*ssa.BasicBlock]bool{}
+	var walk func(b *ssa.BasicBlock) bool
+	walk = func(b *ssa.BasicBlock) bool {
+		if b == target {
+			return true
+		}
+		if seen[b] || b == avoid {
+			return false
+		}
+		seen[b] = true
+		for _, s := range b.Succs {
+			if walk(s) {
+				return true
+			}
+		}
+		return false
+	}
+	return walk(from)
+}
